@@ -21,7 +21,7 @@ type c15State struct {
 }
 
 func SetupC15Panic() any {
-	st := &c15State{sink: &logSink{}, kind: sym.Param("kind")}
+	st := &c15State{sink: &logSink{}, kind: sym.ParamOr("kind", 0)}
 	h := func(c fox.Context) { st.behave(c) }
 	r, err := fox.New(
 		fox.WithNoRouteHandler(h), fox.WithNoMethodHandler(h), fox.WithOptionsHandler(h),
@@ -48,7 +48,7 @@ func opError(msg string) any {
 	return &net.OpError{Op: "write", Net: "tcp", Err: &os.SyscallError{Syscall: "write", Err: errors.New(msg)}}
 }
 
-const nPanicValues = 10
+const nPanicValues = 12
 
 func panicValue(i int) (v any, abort bool, broken bool) {
 	switch i {
@@ -70,6 +70,11 @@ func panicValue(i int) (v any, abort bool, broken bool) {
 		return opError("no route to host"), false, false
 	case 8:
 		return nil, false, false // run-time error raised inside the handler
+	case 10:
+		// the syscall error two levels down the Unwrap chain
+		return &net.OpError{Op: "write", Net: "tcp", Err: &net.OpError{Op: "write", Net: "tcp", Err: &os.SyscallError{Syscall: "write", Err: errors.New("broken pipe")}}}, false, true
+	case 11:
+		return &net.OpError{Op: "write", Net: "tcp", Err: fmt.Errorf("flush: %w", &os.SyscallError{Syscall: "write", Err: errors.New("connection reset by peer")})}, false, true
 	}
 	return &net.OpError{Op: "read", Err: errPlain}, false, false // OpError without SyscallError
 }
@@ -228,4 +233,105 @@ func HarnessC15Redact(st any) {
 	}
 	sym.Assert(!containsStr(msg, marker), "the value of a credential-bearing header never reaches the log")
 	sym.Assert(containsStr(msg, "visible"), "ordinary header values are logged")
+}
+
+// ---- panics inside managed transaction functions -------------------------------------------------
+
+const nTxnSteps = 6
+
+// c15Step performs one write of a managed transaction function.
+func c15Step(txn *fox.Txn, op, i int) {
+	switch op {
+	case 0:
+		_, _ = txn.Handle("GET", "/n"+string(rune('0'+i)), noopHandler)
+	case 1:
+		_, _ = txn.Update("GET", "/ok", noopHandler)
+	case 2:
+		_, _ = txn.Delete("GET", "/p/{id}")
+	case 3:
+		_ = txn.Truncate("GET")
+	case 4:
+		_ = txn.Truncate()
+	case 5:
+		_, _ = txn.Handle("POST", "/p/{id}", noopHandler)
+	}
+}
+
+func SetupC15Txn() any { return SetupC15Panic() }
+
+// HarnessC15Txn: a panic after any step of an Updates/View function (run by a handler under Recovery, or
+// directly) is contained resp. re-raised, and leaves the routes unchanged and the writer lock free.
+func HarnessC15Txn(st any) {
+	s := st.(*c15State)
+	k := sym.Param("k")
+	mode := sym.Choose("mode", 3) // 0 Updates inside a handler, 1 Updates called directly, 2 View inside a handler
+	at := sym.Choose("at", k+1)   // the panic is raised after this many steps
+	ops := make([]int, k)
+	for i := 0; i < k; i++ {
+		ops[i] = sym.Choose("op"+string(rune('0'+i)), nTxnSteps)
+	}
+	fn := func(txn *fox.Txn) error {
+		for i := 0; i < k; i++ {
+			if i == at {
+				panic(customPanic{i})
+			}
+			if mode == 2 {
+				txn.Has("GET", "/ok")
+				_ = txn.Len()
+			} else {
+				c15Step(txn, ops[i], i)
+			}
+		}
+		panic(customPanic{k})
+	}
+	if mode == 2 {
+		for i := 0; i < k; i++ {
+			sym.Assume(ops[i] == 0) // the steps of a View are reads: one representative
+		}
+	}
+	s.behave = func(c fox.Context) {
+		if mode == 2 {
+			_ = c.Fox().View(fn)
+		} else {
+			_ = c.Fox().Updates(fn)
+		}
+	}
+	s.sink.recs = nil
+	if mode == 1 {
+		escaped := panicsWith(func() { _ = s.r.Updates(fn) })
+		cp, ok := escaped.(customPanic)
+		sym.Assert(ok && cp.n == at, "a panic inside Updates reaches the caller unchanged")
+		sym.Cover("panic inside a direct Updates")
+	} else {
+		req := c20Request(hkRoute)
+		req.URL.Path = "/p/42"
+		g, escaped := serveCapture(s.r, req)
+		sym.Assert(escaped == nil, "a panic inside a managed transaction run by a handler never escapes ServeHTTP")
+		sym.Assert(len(g.finals) == 1 && g.finals[0] == 500, "500 when nothing had been written")
+		sym.Assert(len(s.sink.recs) == 1, "one diagnostic record per recovered panic")
+		if mode == 0 {
+			sym.Cover("panic inside Updates in a handler")
+		} else {
+			sym.Cover("panic inside View in a handler")
+		}
+	}
+	// the routes are unchanged: by pattern, by count, by iteration and by routing
+	sym.Assert(s.r.Len() == 2 && s.r.Has("GET", "/p/{id}") && s.r.Has("GET", "/ok") && !s.r.Has("POST", "/p/{id}"), "routes unchanged after a panic inside a managed transaction")
+	n := 0
+	for range s.r.Iter().All() {
+		n++
+	}
+	sym.Assert(n == 2, "iteration shows the unchanged routes")
+	rte, _ := s.r.Reverse("GET", "", "/p/42")
+	sym.Assert(rte != nil && rte.Pattern() == "/p/{id}", "routing unchanged after a panic inside a managed transaction")
+	s.okHit = false
+	g2, esc2 := serveCapture(s.r, &http.Request{Method: "GET", Host: "example.com", URL: &url.URL{Path: "/ok"}})
+	sym.Assert(esc2 == nil && s.okHit && len(g2.finals) == 1 && g2.finals[0] == 204, "later requests are served normally")
+	blocked := sym.WouldBlock(func() {
+		_, err := s.r.Handle("GET", "/new", noopHandler)
+		sym.Assert(err == nil, "a write succeeds after the panic")
+		_, err = s.r.Delete("GET", "/new")
+		sym.Assert(err == nil, "and can be undone")
+	})
+	sym.Assert(!blocked, "the writer lock is free after a panic inside a managed transaction")
 }
